@@ -176,9 +176,16 @@ fn observe_one(path: &str, opts: &ObsOpts) -> String {
             if let Some((_bit, msg)) = obs.panic {
                 s.push_str(&format!("# panic: {}\n", msg));
             }
+            // The sprite stays alive until the next one has been loaded and observed on this thread: two sprites of one
+            // process exist side by side, as they do in an application (anything shared between live sprites shows up).
+            PREVIOUS.with(|p| *p.borrow_mut() = Some(file));
             s
         }
     }
+}
+
+thread_local! {
+    static PREVIOUS: std::cell::RefCell<Option<AsepriteFile>> = std::cell::RefCell::new(None);
 }
 
 /// All inputs of the list are processed one after the other on the driver's shared worker thread (see
